@@ -29,23 +29,23 @@ def plan(pid, tier, seed):
         ]
     else:
         mc = [
-            _mc("Stats_MC_members_quick.cfg", None),
-            _mc("Stats_MC_quick.cfg", None),
-            _mc("Stats_MC_count_quick.cfg", None),
-            _mc("Stats_MC_concept_quick.cfg", None),
-            _mc("Stats_MC_thorough.cfg", 60000, 3600, True),
-            _mc("Stats_MC_members_thorough.cfg", 40000, 3600, True),
-            _mc("Stats_MC_members3.cfg", None, 3600),
-            _mc("Stats_MC_count_thorough.cfg", 40000, 3600, True),
-            _mc("Stats_MC_count_overload.cfg", 20000, 3600),
-            _mc("Stats_MC_concept_thorough.cfg", 20000, 3600, True),
+            _mc("Stats_MC_members_quick.cfg", None),               # all 4 161 class bodies replayed
+            _mc("Stats_MC_quick.cfg", 5000),
+            _mc("Stats_MC_count_quick.cfg", 4000),
+            _mc("Stats_MC_concept_quick.cfg", None),               # all 2 652 name lists replayed
+            _mc("Stats_MC_thorough.cfg", 12000, 3600, True),       # 2.47 M states, 234 441 inputs
+            _mc("Stats_MC_members_thorough.cfg", 8000, 3600),      # 2.32 M states, 200 257 inputs
+            _mc("Stats_MC_members3.cfg", 4000, 3600),              # 121 270 states, 9 724 inputs
+            _mc("Stats_MC_count_thorough.cfg", 6000, 3600, True),  # 2.69 M states, 185 193 models
+            _mc("Stats_MC_count_overload.cfg", 3000, 3600),        # 3.47 M states, 194 481 models
+            _mc("Stats_MC_concept_thorough.cfg", 4000, 3600, True),  # 501 381 states, 29 412 name lists
         ]
     return {
         "harness": "stats",
         "needs_coca": True,
         "mc": mc,
         "gen": [],
-        "rand": 500 if quick else 20000,
+        "rand": 500 if quick else 6000,
         "trace": TRACE,
         "run_timeout": 6000,
     }
